@@ -39,7 +39,7 @@ fn finish_info(id: &str) -> Finish {
     if id == "C11" {
         Finish {
             level: "exploration",
-            rule: format!("histories (quick <60 ops, thorough <300) of the messages real callers send to a fresh NamingActor: HTTP/console register+update (every presence combination of weight/enabled/ephemeral/metadata parameters, i.e. every InstanceUpdateTag combination a handler can build, openapi and console flavour, from_update), HTTP beat (all-false tag), HTTP deregister, the routed forms (UpdateFromSync / Delete with from_cluster), gRPC register / batch register / deregister with connection ids (persistent flag allowed), cluster sync single + batch (UpdateBatch / DeleteBatch with the client ids a peer holds) + snapshot + distro diff, Raft register/update/remove and snapshot-record load, client removal (local, from cluster, list), PeekListenerTimeout, probe results, service update/removal, process-range refresh, InitInstanceMeta; universe 8 services (2 namespaces x 2 groups x 2 names) x 4 addresses x 5 connections. After EVERY step, from public queries only: QueryServiceOnly / QueryServiceInfoPage counts == QueryAllInstanceList; every existing service exactly once in QueryServicePage of its namespace/group (also paged by 1) and in QueryServiceInfoPage with matching totals; QueryClientInstanceCount[c] == #instances whose client_id is c (both directions) and every key of QueryGrpcDistroData exists and belongs to that client; the NAMING_INSTANCE_TABLE records BuildSnapshot writes into a real SnapshotWriterActor == the non-ephemeral instances; RemoveService succeeds iff the service has no instances and then the service is gone. A timed sub-tier (actor injected with the smallest real time-outs, 3 s / 4 s, sleeps at two points) runs the same invariants across health time-outs and time-out removals. non-trivial = the history contains an owner change of an address, a health flip on replace, a removal attempted with a foreign client id on an ephemeral instance, and an ephemeral<->persistent flip; distinct = hash of the case. {}", EXCLUDED_HANDLERS),
+            rule: format!("histories (quick <60 ops, thorough <300) of the messages real callers send to a fresh NamingActor: HTTP/console register+update (every presence combination of weight/enabled/ephemeral/metadata parameters, i.e. every InstanceUpdateTag combination a handler can build, openapi and console flavour, from_update), HTTP beat (all-false tag), HTTP deregister, the routed forms (UpdateFromSync / Delete with from_cluster), gRPC register / batch register / deregister with connection ids (persistent flag allowed), cluster sync single + batch (UpdateBatch / DeleteBatch with the client ids a peer holds) + snapshot + distro diff, Raft register/update/remove and snapshot-record load, client removal (local, from cluster, list), PeekListenerTimeout, probe results, service update/removal, process-range refresh, InitInstanceMeta; universe 8 services (2 namespaces x 2 groups x 2 names) x 4 addresses x 5 connections. After EVERY step, from public queries only: QueryServiceOnly / QueryServiceInfoPage counts == QueryAllInstanceList; every existing service exactly once in QueryServicePage of its namespace/group (also paged by 1) and in QueryServiceInfoPage with matching totals; #ephemeral instances whose client_id is c <= QueryClientInstanceCount[c] <= #instances whose client_id is c, every key of QueryGrpcDistroData exists and belongs to that client and every ephemeral instance of a local connection is among its keys; the NAMING_INSTANCE_TABLE records BuildSnapshot writes into a real SnapshotWriterActor == the non-ephemeral instances; RemoveService succeeds iff the service has no instances and then the service is gone. A timed sub-tier (actor injected with the smallest real time-outs, 3 s / 4 s, sleeps at two points) runs the same invariants across health time-outs and time-out removals. non-trivial = the history contains an owner change of an address, a health flip on replace, a removal attempted with a foreign client id on an ephemeral instance, and an ephemeral<->persistent flip; distinct = hash of the case. {}", EXCLUDED_HANDLERS),
             assumptions: vec![
                 "argument shapes are those of the real callers: HTTP instances have healthy=true, no client id and default values for absent parameters; gRPC instances carry from_grpc + the connection id <node>_<addr>; synced gRPC instances carry the peer's connection id and from_cluster; an instance never has a client id without being gRPC-originated".into(),
                 "the local node id is 0 (what a bare NamingActor believes), peers are 2 and 3; a peer never relays an instance that claims to come from the local node".into(),
@@ -50,12 +50,13 @@ fn finish_info(id: &str) -> Finish {
     } else {
         Finish {
             level: "exploration",
-            rule: format!("same generator with ownership-heavy weights on a small universe (2 services x 3 addresses, 3 local connections, 3 peer connections; quick <50 ops, thorough <200). Oracle = reference model service -> address -> (weight, enabled, healthy, ephemeral, owner) with rules R1-R7 of check/model.rs (new instance carries what was written; tag-wise overwrite; ephemeral HTTP write over a connection-owned address keeps the owner; deregistration with a foreign non-empty client id does not remove an ephemeral instance; RemoveClient(c) removes exactly c's ephemeral instances; queries = enabled, healthy-only unless healthy/total <= threshold in f32). After EVERY step, for every service: QueryAllInstanceList (addresses + attributes + owner), QueryList / QueryServiceInfo (+reach_protection_threshold) / QueryListString (JSON) / QueryInstancePage for healthy_only in {{false,true}}, Query per address, service existence and threshold. non-trivial = two writers on one address (owner change or HTTP write over a connection-owned address) followed by a disconnect of the earlier owner; distinct = hash of the case. Operations that would give a persistent instance a connection owner (finding F15) are skipped and counted in excluded_known. {}", EXCLUDED_HANDLERS),
+            rule: format!("same generator with ownership-heavy weights on a small universe (2 services x 3 addresses, 3 local connections, 3 peer connections; quick <50 ops, thorough <200). Oracle = reference model service -> address -> (weight, enabled, healthy, ephemeral, owner) with rules R1-R7 of check/model.rs (new instance carries what was written; tag-wise overwrite; ephemeral HTTP write over a connection-owned address keeps the owner; deregistration with a foreign non-empty client id does not remove an ephemeral instance; RemoveClient(c) removes exactly c's ephemeral instances; queries = enabled, healthy-only unless healthy/total <= threshold in f32). After EVERY step, for every service: QueryAllInstanceList (addresses + attributes + owner), QueryList / QueryServiceInfo (+reach_protection_threshold) / QueryListString (JSON) / QueryInstancePage for healthy_only in {{false,true}}, Query per address, service existence and threshold. non-trivial = two writers on one address (owner change or HTTP write over a connection-owned address) followed by a disconnect of the earlier owner; distinct = hash of the case. While known_findings.json lists C12/persistent-instance-removed-on-client-disconnect (F15) as open, operations that would give a persistent instance a connection owner are skipped and counted in excluded_known; when the entry is absent or fixed the shape is generated and judged strictly (RNV_C12_F15=exclude|allow overrides); in that mode the one write whose resulting owner the statement does not define (an HTTP-style write that turns such a persistent instance into an ephemeral one) is skipped. {}", EXCLUDED_HANDLERS),
             assumptions: vec![
                 "argument shapes as for C11".into(),
                 "bare actor: health time-outs are 18 s / 33 s and cases take milliseconds, so PeekListenerTimeout changes nothing (time-out behaviour is C13); a case that takes > 12 s wall clock is discarded".into(),
                 "a probe result (PerpetualHostSniffing) is only delivered for services in which the address is currently a persistent instance (what trigger_perpetual_health_check selects; the asynchronous race with a later flip is not modelled)".into(),
                 "metadata precedence (console metadata vs SDK metadata) is not compared; cluster-name filters are not generated (Service::get_instance_list ignores them)".into(),
+                "the owner of a persistent instance is not compared (a connection only owns ephemeral instances)".into(),
             ],
             exhaustive: None,
         }
